@@ -84,6 +84,7 @@ fn normalize(p: &Prov, env: &NameEnv) -> Prov {
             args.iter().map(|(k, v)| (k.clone(), normalize(v, env))).collect(),
         ),
         Prov::Alias(i, n) => Prov::Alias(Box::new(normalize(i, env)), n.clone()),
+        Prov::Nth(k, i) => Prov::Nth(*k, Box::new(normalize(i, env))),
         Prov::TypeDef(_) => Prov::TypeDef(0),
         Prov::Bundle(m) => Prov::Bundle(m.iter().map(|(k, v)| (k.clone(), normalize(v, env))).collect()),
         other => other.clone(),
@@ -97,6 +98,8 @@ struct Denoter<'a> {
     /// package lib index -> component import name observed in the bytes (imported mode)
     comp_names: BTreeMap<usize, String>,
     env: &'a NameEnv,
+    /// tell identically written instantiations apart
+    siblings: bool,
 }
 
 impl<'a> Denoter<'a> {
@@ -113,6 +116,75 @@ impl<'a> Denoter<'a> {
     }
 
     fn denote_raw(&self, n: u32) -> Prov {
+        if self.siblings {
+            return self.tagged_terms().remove(&n).expect("live node");
+        }
+        self.denote_plain(n)
+    }
+
+    fn deps(&self, n: u32) -> Vec<u32> {
+        let ids = id_table(&self.st.real);
+        let g = &self.st.real;
+        let id = ids[&n];
+        match g[id].kind() {
+            NodeKind::Alias => vec![g.get_alias_source(id).expect("alias has a source").0.to_string().parse().unwrap()],
+            NodeKind::Instantiation(_) => g.get_instantiation_arguments(id).map(|(_, a)| a.to_string().parse().unwrap()).collect(),
+            _ => vec![],
+        }
+    }
+
+    /// Terms of all nodes with identically written instantiations told apart (`Prov::Nth`):
+    /// nodes are visited in dependency order (smallest identifier first among the ready ones);
+    /// an instantiation whose term equals that of k earlier visited instantiations gets ordinal k.
+    fn tagged_terms(&self) -> BTreeMap<u32, Prov> {
+        let ids = id_table(&self.st.real);
+        let g = &self.st.real;
+        let mut done: BTreeMap<u32, Prov> = BTreeMap::new();
+        let mut plain_seen: Vec<Prov> = Vec::new();
+        let all: Vec<u32> = ids.keys().copied().collect();
+        while done.len() < all.len() {
+            let Some(n) = all.iter().copied().find(|n| !done.contains_key(n) && self.deps(*n).iter().all(|d| done.contains_key(d))) else {
+                break; // cyclic: not encodable, never compared
+            };
+            let id = ids[&n];
+            let node = &g[id];
+            let term = match node.kind() {
+                NodeKind::Import(name) => Prov::Import(name.clone()),
+                NodeKind::Definition => Prov::TypeDef(0),
+                NodeKind::Alias => {
+                    let (src, export) = g.get_alias_source(id).expect("alias has a source");
+                    Prov::Alias(Box::new(done[&src.to_string().parse::<u32>().unwrap()].clone()), export.to_string())
+                }
+                NodeKind::Instantiation(_) => {
+                    let pid = node.package().unwrap();
+                    let pkg = *self.st.pids.iter().find(|(_, v)| **v == pid).unwrap().0;
+                    let satisfied: BTreeMap<String, u32> =
+                        g.get_instantiation_arguments(id).map(|(s, a)| (s.to_string(), a.to_string().parse().unwrap())).collect();
+                    let mut args = BTreeMap::new();
+                    for slot in g.types()[self.u.packages[pkg].ty()].imports.keys() {
+                        let p = match satisfied.get(slot) {
+                            Some(a) => done[a].clone(),
+                            None => Prov::Implicit(track_key(slot)),
+                        };
+                        args.insert(slot.clone(), p);
+                    }
+                    let plain = Prov::Inst(Box::new(self.comp(pkg)), args);
+                    let np = normalize(&plain, self.env);
+                    let earlier = plain_seen.iter().filter(|q| **q == np).count() as u32;
+                    plain_seen.push(np);
+                    if earlier > 0 {
+                        Prov::Nth(earlier, Box::new(plain))
+                    } else {
+                        plain
+                    }
+                }
+            };
+            done.insert(n, term);
+        }
+        done
+    }
+
+    fn denote_plain(&self, n: u32) -> Prov {
         let ids = id_table(&self.st.real);
         let id = ids[&n];
         let g = &self.st.real;
@@ -122,7 +194,7 @@ impl<'a> Denoter<'a> {
             NodeKind::Definition => Prov::TypeDef(0),
             NodeKind::Alias => {
                 let (src, export) = g.get_alias_source(id).expect("alias has a source");
-                Prov::Alias(Box::new(self.denote_raw(src.to_string().parse().unwrap())), export.to_string())
+                Prov::Alias(Box::new(self.denote_plain(src.to_string().parse().unwrap())), export.to_string())
             }
             NodeKind::Instantiation(_) => {
                 let pid = node.package().unwrap();
@@ -132,7 +204,7 @@ impl<'a> Denoter<'a> {
                 let mut args = BTreeMap::new();
                 for slot in g.types()[self.u.packages[pkg].ty()].imports.keys() {
                     let p = match satisfied.get(slot) {
-                        Some(a) => self.denote_raw(*a),
+                        Some(a) => self.denote_plain(*a),
                         None => Prov::Implicit(track_key(slot)),
                     };
                     args.insert(slot.clone(), p);
@@ -140,6 +212,33 @@ impl<'a> Denoter<'a> {
                 Prov::Inst(Box::new(self.comp(pkg)), args)
             }
         }
+    }
+}
+
+/// Removes the sibling ordinals (`Prov::Nth`) everywhere in a term.
+fn strip_nth(p: &Prov) -> Prov {
+    match p {
+        Prov::Nth(_, i) => strip_nth(i),
+        Prov::Inst(c, args) => Prov::Inst(Box::new(strip_nth(c)), args.iter().map(|(k, v)| (k.clone(), strip_nth(v))).collect()),
+        Prov::Alias(i, n) => Prov::Alias(Box::new(strip_nth(i)), n.clone()),
+        Prov::Bundle(m) => Prov::Bundle(m.iter().map(|(k, v)| (k.clone(), strip_nth(v))).collect()),
+        other => other.clone(),
+    }
+}
+
+/// Applies a renumbering of the sibling ordinals of ONE class of identically written,
+/// argument-free-of-siblings instantiations (`class` = their untagged term; ordinal 0 is the
+/// untagged occurrence): `perm[old] = new`.
+fn renumber(p: &Prov, class: &Prov, perm: &[u32]) -> Prov {
+    let tag = |k: u32, inner: Prov| if k == 0 { inner } else { Prov::Nth(k, Box::new(inner)) };
+    match p {
+        Prov::Nth(k, i) if **i == *class => tag(perm[*k as usize], (**i).clone()),
+        Prov::Inst(..) if *p == *class => tag(perm[0], p.clone()),
+        Prov::Nth(k, i) => Prov::Nth(*k, Box::new(renumber(i, class, perm))),
+        Prov::Inst(c, args) => Prov::Inst(c.clone(), args.iter().map(|(k, v)| (k.clone(), renumber(v, class, perm))).collect()),
+        Prov::Alias(i, n) => Prov::Alias(Box::new(renumber(i, class, perm)), n.clone()),
+        Prov::Bundle(m) => Prov::Bundle(m.iter().map(|(k, v)| (k.clone(), renumber(v, class, perm))).collect()),
+        other => other.clone(),
     }
 }
 
@@ -270,69 +369,124 @@ pub fn wiring_and_interface_check(u: &Universe, st: &State, bytes: &[u8], define
             }
         }
     }
-    let den = Denoter { u, st, define, comp_names, env: explicit };
+    let den = Denoter { u, st, define, comp_names: comp_names.clone(), env: explicit, siblings: false };
 
+    let sections = |d: &Decoded, den: &Denoter| -> Vec<Viol> {
+        let mut out: Vec<Viol> = Vec::new();
     // (a) instantiations as a multiset
-    let want_insts = multiset(m.nodes.iter().filter(|(_, n)| n.kind == RKind::Inst).map(|(i, _)| den.denote(*i)));
-    let got_insts = multiset(d.instantiations.iter().map(|x| normalize(x, explicit)));
-    if want_insts != got_insts {
-        let class = if want_insts.values().sum::<usize>() != got_insts.values().sum::<usize>() { "count" } else { "arguments" };
-        v.push((
-            format!("{p}/wiring/instantiations-{class}/{mode}"),
-            format!("encoded instantiations {got_insts:?} differ from the composition's {want_insts:?}"),
-        ));
-    }
+        let want_insts = multiset(m.nodes.iter().filter(|(_, n)| n.kind == RKind::Inst).map(|(i, _)| den.denote(*i)));
+        let got_insts = multiset(d.instantiations.iter().map(|x| normalize(x, explicit)));
+        if want_insts != got_insts {
+            let class = if want_insts.values().sum::<usize>() != got_insts.values().sum::<usize>() { "count" } else { "arguments" };
+            out.push((
+                format!("{p}/wiring/instantiations-{class}/{mode}"),
+                format!("encoded instantiations {got_insts:?} differ from the composition's {want_insts:?}"),
+            ));
+        }
 
-    // (b) exports: name -> provenance
-    let got_exports: BTreeMap<String, (Kind, Prov)> =
-        d.exports.iter().map(|(n, k, pr)| (n.clone(), (*k, normalize(pr, explicit)))).collect();
-    for (name, node) in &m.exports {
-        let want = den.denote(*node);
-        match got_exports.get(name) {
-            None => v.push((format!("{p}/interface/export-missing/{mode}"), format!("export `{name}` of node {node} is not exported by the encoding"))),
-            Some((_, got)) => {
-                if *got != want {
+        // (b) exports: name -> provenance
+        let got_exports: BTreeMap<String, (Kind, Prov)> =
+            d.exports.iter().map(|(n, k, pr)| (n.clone(), (*k, normalize(pr, explicit)))).collect();
+        for (name, node) in &m.exports {
+            let want = den.denote(*node);
+            match got_exports.get(name) {
+                None => out.push((format!("{p}/interface/export-missing/{mode}"), format!("export `{name}` of node {node} is not exported by the encoding"))),
+                Some((_, got)) => {
+                    if *got != want {
+                        out.push((
+                            format!("{p}/wiring/export-binding/{mode}"),
+                            format!("export `{name}` is bound to {got:?}; the composition designates {want:?}"),
+                        ));
+                    }
+                }
+            }
+        }
+
+        // (c) every alias node is realised as that alias
+        let got_aliases = multiset(d.aliases.iter().map(|x| normalize(x, explicit)));
+        for (i, n) in &m.nodes {
+            if n.kind == RKind::Alias {
+                let want = den.denote(*i);
+                if !got_aliases.contains_key(&want) {
+                    out.push((format!("{p}/wiring/alias/{mode}"), format!("alias node {i} = {want:?} not found among encoded aliases {got_aliases:?}")));
+                }
+            }
+        }
+
+        // (e) names
+        let named: Vec<(u32, &RNode)> = m.nodes.iter().filter(|(_, n)| n.name.is_some()).map(|(i, n)| (*i, n)).collect();
+        if named.len() != d.names.len() {
+            out.push((format!("{p}/wiring/names-count/{mode}"), format!("{} named nodes, {} name-section entries", named.len(), d.names.len())));
+        }
+        for (i, n) in named {
+            let want = den.denote(i);
+            let kind = match &n.item {
+                RItem::Ty(t) => t.kind(),
+                RItem::TypeDef(_) => Kind::Type,
+            };
+            let name = n.name.as_ref().unwrap();
+            let hit = d.names.iter().any(|(k, s, pr)| *k == kind && s == name && normalize(pr, explicit) == want);
+            if !hit {
+                out.push((
+                    format!("{p}/wiring/name-section/{mode}"),
+                    format!("node {i} named `{name}` ({kind:?}, {want:?}) is not named so in the name section {:?}", d.names),
+                ));
+            }
+        }
+
+        out
+    };
+    let plain = sections(&d, &den);
+    if plain.is_empty() {
+        // Everything agrees when identically written instantiations are identified. They are
+        // still distinct instances: compare again with siblings told apart (encoding: order of
+        // emission; composition: order of node identifiers), up to a renumbering of one class.
+        if let Ok(ds) = mc_core::e2::decode_siblings(bytes, &|x| normalize(x, explicit)) {
+            let den_s = Denoter { u, st, define, comp_names, env: explicit, siblings: true };
+            let tagged = sections(&ds, &den_s);
+            if !tagged.is_empty() {
+                let mut classes: Vec<(Prov, u32)> = Vec::new();
+                for i in &ds.instantiations {
+                    if let Prov::Nth(k, inner) = normalize(i, explicit) {
+                        match classes.iter_mut().find(|(c, _)| *c == *inner) {
+                            Some((_, n)) => *n = (*n).max(k),
+                            None => classes.push(((*inner).clone(), k)),
+                        }
+                    }
+                }
+                let mut explained = false;
+                if classes.len() == 1 && classes[0].1 <= 2 && strip_nth(&classes[0].0) == classes[0].0 {
+                    let (class, maxk) = (&classes[0].0, classes[0].1 as usize);
+                    let perms: Vec<Vec<u32>> = if maxk == 1 { vec![vec![1, 0]] } else { vec![vec![0, 2, 1], vec![1, 0, 2], vec![1, 2, 0], vec![2, 0, 1], vec![2, 1, 0]] };
+                    for perm in perms {
+                        let mut dr = Decoded::default();
+                        // (terms are normalised first: `sections` normalises again, which is idempotent)
+                        let rn = |x: &Prov| renumber(&normalize(x, explicit), class, &perm);
+                        dr.instantiations = ds.instantiations.iter().map(rn).collect();
+                        dr.exports = ds.exports.iter().map(|(n, k, x)| (n.clone(), *k, rn(x))).collect();
+                        dr.aliases = ds.aliases.iter().map(rn).collect();
+                        dr.names = ds.names.iter().map(|(k, n, x)| (*k, n.clone(), rn(x))).collect();
+                        if sections(&dr, &den_s).is_empty() {
+                            explained = true;
+                            break;
+                        }
+                    }
+                }
+                if !explained {
+                    let (_, what) = &tagged[0];
                     v.push((
-                        format!("{p}/wiring/export-binding/{mode}"),
-                        format!("export `{name}` is bound to {got:?}; the composition designates {want:?}"),
+                        format!("{p}/wiring/identically-written-instances-confused/{mode}"),
+                        format!("the encoding is right only if instantiations that are written alike are identified; told apart (k-th by emission / by node identifier): {what}"),
                     ));
                 }
             }
         }
+    } else {
+        v.extend(plain);
     }
 
-    // (c) every alias node is realised as that alias
-    let got_aliases = multiset(d.aliases.iter().map(|x| normalize(x, explicit)));
-    for (i, n) in &m.nodes {
-        if n.kind == RKind::Alias {
-            let want = den.denote(*i);
-            if !got_aliases.contains_key(&want) {
-                v.push((format!("{p}/wiring/alias/{mode}"), format!("alias node {i} = {want:?} not found among encoded aliases {got_aliases:?}")));
-            }
-        }
-    }
-
-    // (e) names
-    let named: Vec<(u32, &RNode)> = m.nodes.iter().filter(|(_, n)| n.name.is_some()).map(|(i, n)| (*i, n)).collect();
-    if named.len() != d.names.len() {
-        v.push((format!("{p}/wiring/names-count/{mode}"), format!("{} named nodes, {} name-section entries", named.len(), d.names.len())));
-    }
-    for (i, n) in named {
-        let want = den.denote(i);
-        let kind = match &n.item {
-            RItem::Ty(t) => t.kind(),
-            RItem::TypeDef(_) => Kind::Type,
-        };
-        let name = n.name.as_ref().unwrap();
-        let hit = d.names.iter().any(|(k, s, pr)| *k == kind && s == name && normalize(pr, explicit) == want);
-        if !hit {
-            v.push((
-                format!("{p}/wiring/name-section/{mode}"),
-                format!("node {i} named `{name}` ({kind:?}, {want:?}) is not named so in the name section {:?}", d.names),
-            ));
-        }
-    }
-
+    let got_exports: BTreeMap<String, (Kind, Prov)> =
+        d.exports.iter().map(|(n, k, pr)| (n.clone(), (*k, normalize(pr, explicit)))).collect();
     // C03: implied interface
     if let Some((want_imports, want_exports)) = implied_interface(u, m) {
         let got_imports: BTreeMap<String, (Kind, String)> = d
